@@ -402,6 +402,34 @@ def _(v):
         if not np.allclose(np.asarray(p, dtype=float), np.asarray(p2, dtype=float), rtol=1e-12, atol=0):
             converted.append((name, list(np.ravel(p)), list(np.ravel(p2))))
     v.prove("wrong_dimension_refused_at_run_time", not accepted, detail=repr(accepted[:4]))
+    # one NAMED constant used by two reactions that need different dimensions (first and second order) has no dimension that suits both:
+    # refused when the system is built or when the value is handed in, never accepted for one of the two (rates would depend on the registry);
+    # the same name at the same order is legal
+    shared = ReactionSystem([Reaction({"A": 1}, {"B": 1}, "k"), Reaction({"A": 1, "B": 1}, {"C": 1}, "k")], "A B C")
+    same_order = ReactionSystem([Reaction({"A": 1}, {"B": 1}, "k"), Reaction({"B": 1}, {"C": 1}, "k")], "A B C")
+    c3 = {"A": 1 * u.molar, "B": 2 * u.molar, "C": 0 * u.molar}
+    took = []
+    for name, reg in regs.items():
+        for kval in (3 / u.molar / u.s, 3 / u.s):
+            try:
+                o, _e = get_odesys(shared, unit_registry=reg, include_params=False)
+                o.to_arrays(0 * u.s, c3, {"k": kval})
+                took.append((name, str(kval)))
+            except Exception:
+                pass
+    v.prove("one_name_for_two_dimensions_refused", not took, detail=repr(took[:3]))
+    okk = []
+    for name, reg in regs.items():
+        try:
+            o, _e = get_odesys(same_order, unit_registry=reg, include_params=False)
+            x, y, p = o.to_arrays(0 * u.s, c3, {"k": 3 / u.minute})
+            f = np.asarray(o.f_cb(np.ravel(x)[0], np.ravel(y), np.ravel(p)), dtype=float).ravel()
+            unit = reg["amount"] / reg["length"] ** 3 / reg["time"]
+            phys = [float(to_unitless(fi * unit, u.molar / u.s)) for fi in f]
+            okk.append(np.allclose(phys, [-0.05, 0.05 - 0.1, 0.1], rtol=1e-10, atol=0))
+        except Exception as ex:
+            okk.append(repr(ex)[:80])
+    v.prove("one_name_at_one_order_accepted", all(x is True or x == True for x in okk), detail=repr(okk))  # noqa: E712
     v.prove("compatible_unit_converted_at_run_time", not converted, detail=repr(converted[:2]))
     # (b)
     T = 310 * u.K
